@@ -21,9 +21,12 @@
      `fallback` closure: `all_types.iter().find(..)` over a HashMap): an import (c, N), c not the importing crate,
      that does not resolve in c - c generates nothing (no entry in the table) or generates no type NAMED N (and
      the import is not a glob of a crate of the table) - while two or more crates other than the importer
-     generate a type named N.  Real inputs excluded: `use alpha::Item;` where alpha's Item is serde-renamed (so
-     alpha's table holds AlphaItem, not Item) or alpha has no annotated type at all, and both beta and gamma
-     generate a type called Item.
+     generate a type named N.  The imports meant are those used_imports sees: since the /repo fix of finding
+     C14-renamed-import reconcile_aliases puts the import set back with every (c, N) whose N crate c serde-renames
+     under the NEW name (reconcile.rs:71-84; `renamed_imports` below), so `use alpha::Item;` where alpha's Item is
+     serde-renamed to AlphaItem is the import (alpha, AlphaItem) and resolves.  Real inputs excluded:
+     `use alpha::Item;` where alpha has no annotated type at all or none called Item (an unknown or re-exporting
+     crate), and both beta and gamma generate a type called Item.
    Class 3, per file (visitors.rs:152-160 reconcile_referenced_types: `import_types.iter().find(..)` over the
      HashSet of ONE file): the file mentions a non-local type name N in a type position and its import candidates
      hold (c1, N) and (c2, N) with c1 <> c2; one of the two is kept, by hash order.  Real inputs excluded: a file
@@ -62,6 +65,14 @@ Definition rename_ambiguous (defs : defs06) (imports : list imported) : bool :=
   existsb (fun i => negb (all_same (rename_candidates defs imports (type_name i)))) imports.
 
 (* ---------- class 2 ---------- *)
+(* the import set as reconcile_aliases hands it to used_imports (reconcile.rs:71-84): an import of a type its
+   crate serde-renames carries the generated name *)
+Definition renamed_import (defs : defs06) (i : imported) : imported :=
+  match rename_of defs (base_crate i) (type_name i) with
+  | Some r => {| base_crate := base_crate i; type_name := r |}
+  | None => i
+  end.
+Definition renamed_imports (defs : defs06) (imports : list imported) : list imported := map (renamed_import defs) imports.
 Definition import_resolves (tt : table06) (i : imported) : bool :=
   match get06 tt (base_crate i) with
   | Some names => str_eqb (type_name i) GLOB06 || mem_str (type_name i) names
@@ -76,7 +87,7 @@ Definition fallback_ambiguous (tt : table06) (own : str) (imports : list importe
 (* checks/c06.py imports_ambiguity for one importing crate *)
 Definition imports_ambiguity (tt : table06) (defs : defs06) (own : str) (imports : list imported) : option string :=
   if rename_ambiguous defs imports then Some "one-name-imported-from-two-crates-that-rename-it-differently"%string
-  else if fallback_ambiguous tt own imports then Some "import-falls-back-to-one-of-several-crates-generating-the-name"%string
+  else if fallback_ambiguous tt own (renamed_imports defs imports) then Some "import-falls-back-to-one-of-several-crates-generating-the-name"%string
   else None.
 
 (* ... and for the workspace: the class of the first importing crate that has one *)
